@@ -65,32 +65,29 @@ theorem writeRoots_names (o : Opts) (a : Archive) (files : List Rel) : ∀ (ts :
     have := pure_ok h; subst this
     simp [ih ms hms]
 
-/-- keys of the dict built by repeated assignment are members of the key list that was assigned -/
+theorem addFirst_keys (d : Dict Str Rel) (f : Rel) (k : Str) :
+    k ∈ (addFirst d f).keys ↔ (k ∈ d.keys ∨ k = f.path) := by
+  unfold addFirst Dict.keys
+  split
+  · rename_i hany
+    constructor
+    · intro h; exact Or.inl h
+    · rintro (h | h)
+      · exact h
+      · subst h
+        obtain ⟨kv, hkv, he⟩ := List.any_eq_true.1 hany
+        have : kv.1 = f.path := by simpa using he
+        exact List.mem_map.2 ⟨kv, hkv, this⟩
+  · simp [List.map_append]
+
+/-- keys of the dict built by `addFirst` are members of the key list that was offered -/
 theorem foldl_set_keys (fs : List Rel) : ∀ (d : Dict Str Rel) (k : Str),
-    k ∈ (fs.foldl (fun d f => Dict.set d f.path f) d).keys ↔ (k ∈ d.keys ∨ k ∈ fs.map Rel.path) := by
+    k ∈ (fs.foldl addFirst d).keys ↔ (k ∈ d.keys ∨ k ∈ fs.map Rel.path) := by
   induction fs with
   | nil => intro d k; simp
   | cons f fs ih =>
     intro d k
-    simp only [List.foldl_cons, ih, List.map_cons, List.mem_cons]
-    have hk : k ∈ (Dict.set d f.path f).keys ↔ (k ∈ d.keys ∨ k = f.path) := by
-      unfold Dict.set Dict.keys
-      split
-      · rename_i hany
-        simp only [List.map_map]
-        have : (List.map ((fun x => x.1) ∘ fun kv => if (kv.1 == f.path) = true then (kv.1, f) else kv) d) = List.map (·.1) d := by
-          apply List.map_congr_left; intro kv _; simp only [Function.comp]; split <;> rfl
-        rw [this]
-        constructor
-        · intro h; exact Or.inl h
-        · rintro (h | h)
-          · exact h
-          · subst h
-            obtain ⟨kv, hkv, he⟩ := List.any_eq_true.1 hany
-            have : kv.1 = f.path := by simpa using he
-            exact List.mem_map.2 ⟨kv, hkv, this⟩
-      · simp [List.map_append]
-    rw [hk]
+    simp only [List.foldl_cons, ih, List.map_cons, List.mem_cons, addFirst_keys]
     constructor
     · rintro ((h | h) | h)
       · exact Or.inl h
@@ -100,6 +97,31 @@ theorem foldl_set_keys (fs : List Rel) : ∀ (d : Dict Str Rel) (k : Str),
       · exact Or.inl (Or.inl h)
       · exact Or.inl (Or.inr h)
       · exact Or.inr h
+
+theorem addFirst_nodup (d : Dict Str Rel) (f : Rel) (h : d.keys.Nodup) : (addFirst d f).keys.Nodup := by
+  unfold addFirst
+  split
+  · exact h
+  · rename_i hany
+    unfold Dict.keys at h ⊢
+    rw [List.map_append, List.nodup_append]
+    refine ⟨h, by simp, ?_⟩
+    intro x hx y hy
+    simp at hy; subst hy
+    intro hxy; subst hxy
+    apply hany
+    obtain ⟨kv, hkv, hk⟩ := List.mem_map.1 hx
+    exact List.any_eq_true.2 ⟨kv, hkv, by simpa using hk⟩
+
+theorem foldl_addFirst_nodup (fs : List Rel) : ∀ (d : Dict Str Rel), d.keys.Nodup → (fs.foldl addFirst d).keys.Nodup := by
+  induction fs with
+  | nil => intro d h; exact h
+  | cons f fs ih => intro d h; exact ih _ (addFirst_nodup d f h)
+
+/-- **C16: every rewritten member is written once.** -/
+theorem C16_written_once (a : Archive) (files : List Rel) : (saveTargets a files).keys.Nodup := by
+  unfold saveTargets
+  exact foldl_addFirst_nodup _ [] (by simp [Dict.keys])
 
 /-- **C16: member names.** A name is in the saved archive iff it is in the input archive. -/
 theorem C16_names (o : Opts) (a out : Archive) (h : save o a = .ok out) :
